@@ -27,8 +27,8 @@ BOUNDS = {
              "transports (serial-like and USB-HID device class); cmd_exception off and on",
     "thorough": "K <= 5, data up to 17 bytes, packet sizes {1, 3, 4, 8, 16}",
 }
-OUTSIDE = ("transfers above the bounds (64 KiB); histories of several operations on one object (each case starts from a fresh "
-           "McuBoot with a known max packet size, or negotiates it as its first exchange); real timing: silence is a "
+OUTSIDE = ("transfers above the bounds (64 KiB); histories longer than two operations (history/* cases: every ordered pair of "
+           "five operations on one object, the second compared with the same operation on a fresh object); real timing: silence is a "
            "TimeoutError from the stub; a response that answers a different command than the one sent is mirrored, not "
            "rejected, by _process_cmd (not one of the listed faults); trust-provisioning / EL2GO / key-provisioning commands")
 STUBS = ["interface -> scripted event source with a send log (what the frame layer's contract allows)",
@@ -411,6 +411,70 @@ def h_negotiate(env, c):
     env.prove(len(flat) <= n and env.is_true(env.bytes_eq(flat, list(data)[:len(flat)])), "write.bytes_in_order_each_once")
 
 
+# ---------------------------------------------------------------------------------------------------- histories
+def _do(env, mb, op, arg):
+    if op == "get_property":
+        return mb.get_property(PROP.PropertyTag.MAX_PACKET_SIZE, arg)
+    if op == "fill_memory":
+        return mb.fill_memory(arg, 4, 0xFFFFFFFF)
+    if op == "read_memory":
+        return mb.read_memory(arg % 0x10000000, 4)
+    if op == "write_memory":
+        return mb.write_memory(arg % 0x10000000, b"\x01\x02\x03\x04\x05")
+    if op == "set_property":
+        return mb.set_property(10, arg)
+    raise ValueError(op)
+
+
+TYPED = {"get_property": 0xA7, "read_memory": 0xA3}
+
+
+def h_history(env, c):
+    """two operations on ONE McuBoot object: the second behaves exactly as on a fresh object that sees the remaining
+    device events (no state leaks from one operation into the next; the negotiated packet size is given to both)"""
+    op1, op2 = c["ops"]
+    script = Script(env, c["K"], TYPED.get(op1, 0xA0))
+    iface = Iface(script, c.get("usb", False))
+    mb = MB.McuBoot(iface, cmd_exception=c.get("exc", False))
+    mb.max_packet_size = 4
+    a1, a2 = env.int("arg1", 0, 0xFFFFFFFF), env.int("arg2", 0, 0xFFFFFFFF)
+    script.typed_answer = op1 == "read_memory"
+    r1, e1 = call(env, lambda: _do(env, mb, op1, a1))
+    if e1 is not None:
+        env.prove(documented(e1), "cmd.fault_surfaces_as_documented_exception")
+    consumed = script.pos
+    sent_before = len(iface.sent)
+    script.typed_tag = TYPED.get(op2, 0xA0)
+    script.typed_answer = op2 == "read_memory"
+    r2, e2 = call(env, lambda: _do(env, mb, op2, a2))
+    st2 = mb.status_code
+    sent2 = iface.sent[sent_before:]
+    # ---- the same second operation on a fresh object over the remaining events ------------------------------------------
+    fresh_script = Script.__new__(Script)
+    fresh_script.env, fresh_script.events, fresh_script.pos, fresh_script.seen = env, script.events[consumed:], 0, []
+    fresh_script.typed_tag = TYPED.get(op2, 0xA0)
+    fresh_script.typed_answer = op2 == "read_memory"
+    fi = Iface(fresh_script, c.get("usb", False))
+    fm = MB.McuBoot(fi, cmd_exception=c.get("exc", False))
+    fm.max_packet_size = 4
+    r3, e3 = call(env, lambda: _do(env, fm, op2, a2))
+    env.prove(type(e2) is type(e3), "cmd.history_same_exception_as_on_fresh_object")
+    if e2 is None and e3 is None:
+        same = (r2 is None) == (r3 is None)
+        if same and r2 is not None:
+            if not hasattr(r2, "__len__") or not hasattr(r3, "__len__"):
+                same = bool(r2) == bool(r3)
+            elif isinstance(r2, list):
+                same = len(r2) == len(r3) and all(env.is_true(x == y) for x, y in zip(r2, r3))
+            else:
+                same = len(r2) == len(r3) and env.is_true(env.bytes_eq(r2, r3))
+        env.prove(same, "cmd.history_same_result_as_on_fresh_object")
+        env.prove(env.is_true(st2 == fm.status_code), "cmd.history_same_status_as_on_fresh_object")
+    env.prove(len(sent2) == len(fi.sent) and all(k1 == k2 and (d1 is None or env.is_true(env.bytes_eq(d1, d2)))
+                                                 for (k1, d1), (k2, d2) in zip(sent2, fi.sent)),
+              "cmd.history_same_traffic_as_on_fresh_object")
+
+
 # ---------------------------------------------------------------------------------------------------- SDP
 class SdpIface:
     """SDP interface: every read() yields the next scripted answer: (hab flag, payload of a scripted length) or a fault"""
@@ -553,6 +617,14 @@ def cases(tier):
     for n in (5,):
         for K in (2, 3):
             cs.append({"id": f"negotiate/n={n}/K={K}", "h": "negotiate", "n": n, "K": K})
+    hops = ("get_property", "fill_memory", "read_memory", "write_memory", "set_property")
+    for o1 in hops:
+        for o2 in hops:
+            for exc in (False, True):
+                if q and exc and (hops.index(o1) + hops.index(o2)) % 2:
+                    continue
+                cs.append({"id": f"history/{o1}+{o2}/exc={int(exc)}", "h": "history", "ops": [o1, o2], "exc": exc, "K": 4 if q else 5,
+                           "weight": 8})
     for exc in (False, True):
         for ln, lens in ((4, [4]), (8, [4]), (8, [4, 2]), (4, [4, 0]), (6, [4]), (4, [2]), (4, [4, 3])):
             for K in (1, 2, 3, 4):
